@@ -146,9 +146,12 @@ func min2(a, b int) int {
 // PoolCycles: warmed-up get/use/put cycles with one buffer outstanding, measured (C18).
 func PoolCycles(pw *poolWriter, ty string, ch, l, k, cycles int) {
 	pool := NewPool(ty, allocator(ch, l, k))
-	byValue := (ch+l+k)%2 == 0
-	if byValue {
-		pool = pool.Copy() // all calls go through one persistent copy of the allocator value taken before the first Put
+	// by pointer / through one persistent copy of the allocator value / through a fresh copy for every call (a value
+	// receiver or a struct field passed by value copies the allocator each time)
+	mode := (ch + l + k) % 3
+	byValue := mode != 0
+	if mode == 1 {
+		pool = pool.Copy()
 	}
 	pw.tid++
 	pw.Traces++
